@@ -428,7 +428,7 @@ Proof.
 Qed.
 
 (* substring / suffix / prefix / equality tests = the pattern semantics of a literal pattern *)
-Theorem plain_tests_are_search f s : all_lits f = true ->
+Theorem plain_tests_are_search (f s : str) : all_lits f = true ->
   containsb f s = search false false (toks f) s /\
   suffixb f s = search false true (toks f) s /\
   prefixb f s = search true false (toks f) s /\
@@ -704,7 +704,7 @@ Section Dispatch.
   Variable re_ok : str -> bool.
   Variable re_match : str -> str -> bool.
 
-  Lemma regex_tail sh f s : f <> [] -> s_rx sh = true -> s_cr sh = false ->
+  Lemma regex_tail sh (f s : str) : f <> [] -> s_rx sh = true -> s_cr sh = false ->
     re_std re_ok re_match (translate f (s_la sh) (s_ra sh)) (s_la sh) (s_ra sh) (toks f) ->
     no_nl s = true ->
     regex_manager_matches re_ok re_match sh [f] s = search (s_la sh) (s_ra sh) (toks f) s.
@@ -715,7 +715,7 @@ Section Dispatch.
   Qed.
 
   (* the five hostname-anchored functions, for a parsed rule with a pattern: one normal form *)
-  Lemma hn_paths_nf sh f h r hs :
+  Lemma hn_paths_nf sh (f h : str) r hs :
     wf_request r hs -> h <> [] -> f <> [] ->
     s_hn sh = true -> s_cr sh = false -> s_mc sh = false ->
     s_rx sh = negb (all_lits f) ->
@@ -783,7 +783,6 @@ Section Dispatch.
         destruct hostname as [h|]; [|discriminate].
         apply negb_true_iff in Hnd2. assert (Hh : h <> []) by (intros ->; discriminate).
         rewrite (hn_paths_nf sh f h r hs); auto.
-        2:{ rewrite Hhn in Hnd1. cbn [andb] in Hnd1. exact Hnd1. }
         unfold ast_of_fields, ref_match. rewrite Hhn. cbn [pa_left pa_body pa_right].
         destruct (s_la sh) eqn:Hla.
         * unfold search. rewrite (hn_left_anchored r hs Hwf h (s_wild sh) (s_ra sh) (toks f) Hh Hhost).
@@ -810,7 +809,7 @@ Section Dispatch.
             destruct la, ra; cbn [andb existsb]; rewrite orb_false_r; assumption. }
         rewrite Hnf, search_spec. destruct (s_la sh); reflexivity.
     - (* no pattern *)
-      cbn [fs_of]. apply andb_true_iff in Hnd1 as [Hla Hrx]. apply negb_true_iff in Hla. apply negb_true_iff in Hrx.
+      cbn [fs_of]. apply andb_true_iff in Hnd1 as [Hnd1 Hnd0]. apply andb_true_iff in Hnd1 as [Hla Hrx]. apply negb_true_iff in Hla. apply negb_true_iff in Hrx.
       destruct (s_hn sh) eqn:Hhn.
       + destruct hostname as [h|]; [|discriminate].
         apply negb_true_iff in Hnd2. assert (Hh : h <> []) by (intros ->; discriminate).
@@ -831,3 +830,153 @@ Section Dispatch.
         exists (lower_str (r_url r)), []. split; [symmetry; apply app_nil_r|apply m_nil_end].
   Qed.
 End Dispatch.
+
+(* ====================================================================================== *)
+(* Part 7 — compile_regex's string translation is the canonical printing of the tokens      *)
+(* ====================================================================================== *)
+
+Definition gb (b : N) : str :=
+  if is_special b then [BACKSLASH; b] else if N.eqb b STAR then DOTSTAR else [b].
+Definition P12 (f : str) : str := pass_wildcard (pass_special f).
+
+Lemma P12_cons b f : P12 (b :: f) = gb b ++ P12 f.
+Proof.
+  unfold P12, pass_special, pass_wildcard. cbn [flat_map]. rewrite flat_map_app. f_equal.
+  unfold gb. destruct (is_special b) eqn:S.
+  - cbn [flat_map]. change (N.eqb BACKSLASH STAR) with false. cbv iota.
+    destruct (N.eqb_spec b STAR) as [->|ne]; [vm_compute in S; discriminate|]. reflexivity.
+  - cbn [flat_map]. rewrite app_nil_r. reflexivity.
+Qed.
+
+Definition nocaret (s : str) : bool := forallb (fun x => negb (N.eqb x CARET)) s.
+
+Lemma gb_nocaret b : N.eqb b CARET = false -> nocaret (gb b) = true.
+Proof.
+  intros H. unfold gb, nocaret. destruct (is_special b); [|destruct (N.eqb b STAR)]; cbn [forallb];
+    rewrite ?H; reflexivity.
+Qed.
+
+Lemma pass_anchor_other x t : N.eqb x CARET = false -> pass_anchor (x :: t) = x :: pass_anchor t.
+Proof. intros H. cbn [pass_anchor]. rewrite H. reflexivity. Qed.
+
+Lemma pass_anchor_caret c t : N.eqb c NL = false ->
+  pass_anchor (CARET :: c :: t) = SEP_TXT ++ c :: pass_anchor t.
+Proof. intros H. cbn [pass_anchor]. rewrite N.eqb_refl, H. reflexivity. Qed.
+
+Lemma pass_anchor_nocaret a Y : nocaret a = true -> pass_anchor (a ++ Y) = a ++ pass_anchor Y.
+Proof.
+  induction a as [|x a IH]; intros H; [reflexivity|]. cbn [nocaret forallb] in H.
+  apply andb_true_iff in H as [H1 H2]. apply negb_true_iff in H1.
+  cbn [app]. rewrite pass_anchor_other by exact H1. rewrite (IH H2). reflexivity.
+Qed.
+
+(* printing with the final '^' still raw (the state between ANCHOR_RE and ANCHOR_RE_EOL) *)
+Fixpoint print3 (p : list ptok) : str :=
+  match p with
+  | [] => []
+  | t :: r => match r with
+              | [] => match t with PSep => [CARET] | _ => print_tok false t end
+              | _ => print_tok false t ++ print3 r
+              end
+  end.
+
+Lemma print_tok_gb b l : N.eqb b CARET = false -> print_tok l (tok_of b) = gb b.
+Proof.
+  intros H. unfold tok_of, gb. rewrite H. destruct (N.eqb b STAR) eqn:S.
+  - apply N.eqb_eq in S. subst b. reflexivity.
+  - reflexivity.
+Qed.
+
+Lemma print3_cons_other b f : N.eqb b CARET = false ->
+  print3 (toks (b :: f)) = gb b ++ print3 (toks f).
+Proof.
+  intros H. cbn [toks map print3]. fold (toks f). destruct (toks f) as [|t r] eqn:E.
+  - rewrite app_nil_r. rewrite <- (print_tok_gb b false H). unfold tok_of. rewrite H.
+    destruct (N.eqb b STAR); reflexivity.
+  - rewrite (print_tok_gb b false H). reflexivity.
+Qed.
+
+Lemma gb_head c : N.eqb c CARET = false -> N.eqb c NL = false ->
+  exists d rest, gb c = d :: rest /\ N.eqb d CARET = false /\ N.eqb d NL = false.
+Proof.
+  intros H1 H2. unfold gb. destruct (is_special c); [|destruct (N.eqb c STAR)].
+  - exists BACKSLASH, [c]. repeat split.
+  - exists 46%N, [42%N]. repeat split.
+  - exists c, []. repeat split; assumption.
+Qed.
+
+Lemma pass_anchor_P12 f : has_double_caret f = false -> no_nl f = true ->
+  pass_anchor (P12 f) = print3 (toks f).
+Proof.
+  induction f as [|b f IH]; intros Hd Hn; [reflexivity|].
+  cbn [has_double_caret] in Hd. apply orb_false_iff in Hd as [Hd1 Hd2].
+  cbn [no_nl forallb] in Hn. apply andb_true_iff in Hn as [Hn1 Hn2]. apply negb_true_iff in Hn1.
+  fold (no_nl f) in Hn2. specialize (IH Hd2 Hn2).
+  rewrite P12_cons. destruct (N.eqb b CARET) eqn:Hb.
+  - apply N.eqb_eq in Hb. subst b. cbn [andb] in Hd1. change (gb CARET) with [CARET]. cbn [app].
+    destruct f as [|c f]; [reflexivity|].
+    cbn [head_is] in Hd1.
+    cbn [no_nl forallb] in Hn2. apply andb_true_iff in Hn2 as [Hc _]. apply negb_true_iff in Hc.
+    destruct (gb_head c Hd1 Hc) as (d & rest & Eg & Hd' & Hn').
+    rewrite P12_cons in IH |- *. rewrite Eg in IH |- *. cbn [app] in IH |- *.
+    rewrite pass_anchor_caret by exact Hn'. rewrite pass_anchor_other in IH by exact Hd'.
+    rewrite IH. cbn [toks map print3]. fold (toks f). reflexivity.
+  - rewrite pass_anchor_nocaret by (apply gb_nocaret; exact Hb). rewrite IH.
+    symmetry. apply print3_cons_other. exact Hb.
+Qed.
+
+Lemma pass_anchor_eol_cons x (t : str) : t <> [] -> pass_anchor_eol (x :: t) = x :: pass_anchor_eol t.
+Proof. destruct t; [congruence|reflexivity]. Qed.
+
+Lemma pass_anchor_eol_app (a b : str) : b <> [] -> pass_anchor_eol (a ++ b) = a ++ pass_anchor_eol b.
+Proof.
+  intros Hb. induction a as [|x a IH]; [reflexivity|]. cbn [app].
+  rewrite pass_anchor_eol_cons, IH; [reflexivity|].
+  intros E. apply app_eq_nil in E as [_ E]. congruence.
+Qed.
+
+Lemma pass_anchor_eol_gb b : N.eqb b CARET = false -> pass_anchor_eol (gb b) = gb b.
+Proof.
+  intros H. unfold gb. destruct (is_special b); [|destruct (N.eqb b STAR)]; cbn [pass_anchor_eol];
+    rewrite ?H; reflexivity.
+Qed.
+
+Lemma toks_nonempty b f : toks (b :: f) <> [].
+Proof. discriminate. Qed.
+
+Lemma print3_nonempty b f : print3 (toks (b :: f)) <> [].
+Proof.
+  cbn [toks map print3]. fold (toks f). destruct (toks f) as [|t r].
+  - unfold tok_of. destruct (N.eqb b STAR); [discriminate|]. destruct (N.eqb b CARET); [discriminate|].
+    cbn [print_tok]. destruct (is_special b); discriminate.
+  - unfold tok_of. destruct (N.eqb b STAR); [discriminate|]. destruct (N.eqb b CARET); [discriminate|].
+    cbn [print_tok]. destruct (is_special b); discriminate.
+Qed.
+
+Lemma pass_anchor_eol_print3 f : pass_anchor_eol (print3 (toks f)) = print_toks (toks f).
+Proof.
+  induction f as [|b f IH]; [reflexivity|]. destruct f as [|c f].
+  - cbn [toks map print3 print_toks]. unfold tok_of. destruct (N.eqb b STAR) eqn:S; [reflexivity|].
+    destruct (N.eqb b CARET) eqn:C; [reflexivity|]. cbn [print_tok].
+    destruct (is_special b); cbn [pass_anchor_eol]; rewrite ?C; reflexivity.
+  - change (toks (b :: c :: f)) with (tok_of b :: toks (c :: f)).
+    assert (E3 : print3 (tok_of b :: toks (c :: f)) = print_tok false (tok_of b) ++ print3 (toks (c :: f))) by reflexivity.
+    assert (Ep : print_toks (tok_of b :: toks (c :: f)) = print_tok false (tok_of b) ++ print_toks (toks (c :: f))) by reflexivity.
+    rewrite E3, Ep, pass_anchor_eol_app by apply print3_nonempty. rewrite IH. reflexivity.
+Qed.
+
+(* outside doubled '^' and line feeds, the four regex replacements produce exactly the text
+   that prints the token list: escaped literals, ".*" for '*', the separator class for '^',
+   "(?:sep|$)" for a final '^' *)
+Theorem translate_is_print f la ra : has_double_caret f = false -> no_nl f = true ->
+  translate f la ra = regex_text (toks f) la ra.
+Proof.
+  intros Hd Hn. unfold translate, regex_text. fold (P12 f).
+  rewrite pass_anchor_P12 by assumption. rewrite pass_anchor_eol_print3. reflexivity.
+Qed.
+
+(* the degenerate spelling: a doubled '^' puts a start-of-text assertion into the regex *)
+Example translate_double_caret :
+  translate (bs "a^^b") false false = bs "a(?:[^\w\d\._%-])^b"
+  /\ regex_text (toks (bs "a^^b")) false false = bs "a(?:[^\w\d\._%-])(?:[^\w\d\._%-])b".
+Proof. split; vm_compute; reflexivity. Qed.
